@@ -20,6 +20,14 @@ J2max = dict(J2, base=2 ** 63 - 3)
 J2bmin = dict(J2b, base=-(2 ** 63) + 1)
 
 
+# a gauge holding NEGATIVE zero: -0.0 and +0.0 are equal as numbers and different as bit patterns
+G0 = {"flavor": "f64", "kind": "gauge", "threads": ["t1", "t2"], "pre": [{"k": "set", "v": -0.0}],
+      "scripts": {"t1": [{"k": "add", "v": 1}, {"k": "get"}], "t2": [{"k": "add", "v": 0}, {"k": "inc"}, {"k": "dec"}, {"k": "get"}]}}
+# lock-freedom: one sub()/dec() whose compare-exchange loses 14 times in a row against a stream of add() calls
+GS = {"flavor": "f64", "kind": "gauge", "threads": ["t1", "t2", "t3"], "starve": [("t1", 14), ("t3", 10)], "budget": 6000,
+      "scripts": {"t1": [{"k": "sub", "v": 1}, {"k": "get"}], "t2": [{"k": "add", "v": 2}] * 16, "t3": [{"k": "dec"}, {"k": "get"}]}}
+
+
 def run(ctx):
     exe = build_harness()
     stats, samples = new_stats(), []
@@ -30,7 +38,12 @@ def run(ctx):
             run_scenario(ctx, "C11", exe, sc, lb, stats, samples, *O, model=True, nrandom=100, kinds=kinds)
         for sc, lb in ((G2s, "G2s"), (J2max, "J2max"), (J2bmin, "J2bmin")):
             run_scenario(ctx, "C11", exe, sc, lb, stats, samples, *O, model=True, nrandom=50)
+        # (no edge-cover replay here: the model's integers do not distinguish -0.0 from +0.0, the code's compare-exchange does)
+        run_scenario(ctx, "C11", exe, G0, "G0", stats, samples, *O, model=False, nrandom=400)
+        run_scenario(ctx, "C11", exe, GS, "GS", stats, samples, *O, model=False, nrandom=20, check=False)
     else:
+        run_scenario(ctx, "C11", exe, G0, "G0", stats, samples, *O, model=False, nrandom=8000, kinds=["gauge", "gaugevec_child"])
+        run_scenario(ctx, "C11", exe, GS, "GS", stats, samples, *O, model=False, nrandom=500, check=False)
         for sc, lb in ((G2s, "G2s"), (J2max, "J2max"), (J2bmin, "J2bmin"), (dict(G2b, scale=2.0 ** -1070), "G2bs"), (dict(J3, base=2 ** 63 - 2), "J3max")):
             run_scenario(ctx, "C11", exe, sc, lb, stats, samples, *O, model=True, nrandom=3000)
         for sc, lb in ((G2, "G2"), (G2b, "G2b"), (J2, "J2"), (J2b, "J2b")):
